@@ -299,6 +299,45 @@ func c13UnaryScope(n int, e enum.Embed) *drv.Scope {
 		}}
 }
 
+// c13RectCheck: one base path set and rectangle under every transformation of xfs.
+func c13RectCheck(c *drv.Ctx, base Paths, r [4]int64, xfs []c13Xf) {
+	// base witnesses: integer points; deep inside the rectangle and far from input edges, or far outside
+	type wt struct {
+		p    Pt
+		want int
+	}
+	var wit []wt
+	g := oracle.Grid{S: 1}
+	for y := int64(-3); y <= 43; y += 2 {
+		for x := int64(-3); x <= 43; x += 2 {
+			inside := x > r[0]+2 && x < r[2]-2 && y > r[1]+2 && y < r[3]-2
+			outside := x < r[0]-2 || x > r[2]+2 || y < r[1]-2 || y > r[3]+2
+			if inside && g.FarFromEdges(x, y, 2, true, base) {
+				w, _ := windExact(base, x, y)
+				wit = append(wit, wt{Pt{X: x, Y: y}, w})
+			} else if outside {
+				wit = append(wit, wt{Pt{X: x, Y: y}, 0})
+			}
+		}
+	}
+	for _, xf := range xfs {
+		a, b := xf.pt(Pt{X: r[0], Y: r[1]}), xf.pt(Pt{X: r[2], Y: r[3]})
+		out := clipper.RectClipPaths64(clipper.NewRect64(a.X, a.Y, b.X, b.Y), xf.paths(base))
+		c.Exec(1)
+		for _, w := range wit {
+			tp := xf.pt(w.p)
+			got, on := windExact(out, tp.X, tp.Y)
+			if on {
+				continue
+			}
+			if got != w.want {
+				c.Fail("RectClipPaths64", xf.name, "%s: base point %v maps to %v where the clipped transformed path has winding %d, expected %d; base path %v rect %v; result %v", xf.name, w.p, tp, got, w.want, base, r, out)
+				break
+			}
+		}
+	}
+}
+
 func c13RectScope(n int) *drv.Scope {
 	l := rcR5
 	xfs := append(append([]c13Xf{}, c13Translations...), c13Scales...)
@@ -309,45 +348,48 @@ func c13RectScope(n int) *drv.Scope {
 			buf = l.path(idx, n, buf)
 			base := Paths{enum.ClonePath(buf)}
 			r := l.rect
-			// base witnesses: integer points; deep inside the rectangle and far from input edges, or far outside
-			type wt struct {
-				p    Pt
-				want int
-			}
-			var wit []wt
-			g := oracle.Grid{S: 1}
-			for y := int64(-3); y <= 43; y += 2 {
-				for x := int64(-3); x <= 43; x += 2 {
-					inside := x > r[0]+2 && x < r[2]-2 && y > r[1]+2 && y < r[3]-2
-					outside := x < r[0]-2 || x > r[2]+2 || y < r[1]-2 || y > r[3]+2
-					if inside && g.FarFromEdges(x, y, 2, true, base) {
-						w, _ := windExact(base, x, y)
-						wit = append(wit, wt{Pt{X: x, Y: y}, w})
-					} else if outside {
-						wit = append(wit, wt{Pt{X: x, Y: y}, 0})
-					}
-				}
-			}
-			for _, xf := range xfs {
-				a, b := xf.pt(Pt{X: r[0], Y: r[1]}), xf.pt(Pt{X: r[2], Y: r[3]})
-				out := clipper.RectClipPaths64(clipper.NewRect64(a.X, a.Y, b.X, b.Y), xf.paths(base))
-				c.Exec(1)
-				for _, w := range wit {
-					tp := xf.pt(w.p)
-					got, on := windExact(out, tp.X, tp.Y)
-					if on {
-						continue
-					}
-					if got != w.want {
-						c.Fail("RectClipPaths64", xf.name, "%s: base point %v maps to %v where the clipped transformed path has winding %d, expected %d; base path %v rect %v; result %v", xf.name, w.p, tp, got, w.want, base, r, out)
-						break
-					}
-				}
-			}
+			c13RectCheck(c, base, r, xfs)
 			if rcCrosses(r, buf) {
 				c.Nontriv()
 				c.Count("rect_paths_crossing", 1)
 			}
+		}}
+}
+
+// c13RectRoundScope: closed paths that go round the rectangle (10,10,30,30) without touching it - a ring, a double
+// ring, U shapes with the rectangle in the notch (winding 0) in four rotations - from every start vertex and in
+// both directions: the only inputs for which the clipper has to decide "how often does the path wind round me".
+func c13RectRoundScope() *drv.Scope {
+	ring := Path{{X: 0, Y: 0}, {X: 40, Y: 0}, {X: 40, Y: 40}, {X: 0, Y: 40}}
+	u := Path{{X: 0, Y: 0}, {X: 40, Y: 0}, {X: 40, Y: 40}, {X: 35, Y: 40}, {X: 35, Y: 5}, {X: 5, Y: 5}, {X: 5, Y: 40}, {X: 0, Y: 40}}
+	rot := func(p Path) Path {
+		q := make(Path, len(p))
+		for i, v := range p {
+			q[i] = Pt{X: 40 - v.Y, Y: v.X}
+		}
+		return q
+	}
+	bases := []Path{ring, append(append(Path{}, ring...), ring...)}
+	for k, q := 0, u; k < 4; k++ {
+		bases = append(bases, q)
+		q = rot(q)
+	}
+	var all []Path
+	for _, b := range bases {
+		for st := range b {
+			f := append(append(Path{}, b[st:]...), b[:st]...)
+			all = append(all, f, clipper.ReversePath(enum.ClonePath(f)))
+		}
+	}
+	xfs := append(append(append([]c13Xf{}, c13Translations...), c13Scales...), c13Centred(20, 20)...)
+	xfs = append(xfs, c13Xf{"scale 2^55+987654321", 1<<55 + 987654321, 0, 0}, c13Xf{"scale 2^32+12345 centred on the origin", 1<<32 + 12345, -20 * (1<<32 + 12345), -20 * (1<<32 + 12345)})
+	return &drv.Scope{Name: "magnitude/RectClipPaths64/paths round the rectangle (rings, double rings, U shapes)", Level: 2, Size: uint64(len(all)),
+		Show: func(idx uint64) any {
+			return map[string]any{"path": pathLit(all[idx]), "rect": [4]int64{10, 10, 30, 30}}
+		},
+		Run: func(c *drv.Ctx, idx uint64) {
+			c13RectCheck(c, Paths{all[idx]}, [4]int64{10, 10, 30, 30}, xfs)
+			c.Nontriv()
 		}}
 }
 
@@ -510,7 +552,7 @@ func init() {
 		Assumptions:      []string{"finite magnitude grid, not all magnitudes", "base inputs of <= 5 vertices"},
 		RequiredCounters: []string{"boolean_inputs_with_nonempty_expected_region", "unary_paths_with_area", "rect_paths_crossing", "inflate_polygons"},
 		Scopes: func(tier string) []*drv.Scope {
-			out := []*drv.Scope{c13PrimScope(), c13UnaryScope(3, enum.Esh), c13UnaryScope(4, enum.Esh), c13UnaryScope(3, enum.Eax), c13UnaryScope(4, enum.Eax), c13RectScope(3), c13InflateScope(),
+			out := []*drv.Scope{c13PrimScope(), c13UnaryScope(3, enum.Esh), c13UnaryScope(4, enum.Esh), c13UnaryScope(3, enum.Eax), c13UnaryScope(4, enum.Eax), c13RectScope(3), c13RectRoundScope(), c13InflateScope(),
 				c13BoolScope(tier, enum.Esh), c13BoolScope(tier, enum.Eax)}
 			if tier == "thorough" {
 				out = append(out, c13UnaryScope(5, enum.Esh), c13UnaryScope(5, enum.Eax), c13RectScope(4))
